@@ -76,7 +76,7 @@ PROPS = {
         not_decided="document order equals the DFS order of the real tree, inheritance of Resources/MediaBox/CropBox/Rotate, page_count fallbacks",
     ),
     "C05": dict(
-        verus=["rc4"],
+        verus=["rc4", "objkey"],
         kani=[K("c05_perm_print", "encryption/permissions.rs", "Permissions::set_print/can_print"),
               K("c05_perm_modify", "encryption/permissions.rs", "Permissions::set_modify_contents/can_modify_contents"),
               K("c05_perm_copy", "encryption/permissions.rs", "Permissions::set_copy/can_copy"),
@@ -100,7 +100,7 @@ PROPS = {
         not_decided="that output page k is input page order[k] with the same content, resources and boxes (Page::from_parsed_with_content; file I/O); MediaBox-origin handling",
     ),
     "C23": dict(
-        verus=["rc4"],
+        verus=["rc4", "objkey"],
         kani=[K("c05_perm_new_and_flags", "encryption/permissions.rs", "Permissions::new/from_flags/flags/all")],
         not_decided="AES-CBC/PKCS#7 (aes, cbc crates), MD5/SHA (md5, sha2 crates), Algorithms 2-10 glue pending",
     ),
